@@ -10,7 +10,7 @@ from fractions import Fraction
 
 from . import alg
 from . import ctx as C
-from .contract import ConcMk, RealMk, Res, res_from_numpy
+from .contract import ConcMk, Pair, RealMk, Res, res_from_numpy
 from .npmodel import Arr, MArr, MaskedConst
 
 
@@ -129,6 +129,12 @@ def conform(T, case, values, compare_hidden=None):
         if mk_kind == "raise" and rk == "raise" and type(mr).__name__ == type(rr).__name__:
             return None
         return "model %s %r vs real %s %r" % (mk_kind, mr if mk_kind == "raise" else "", rk, rr if rk == "raise" else "")
+    if isinstance(mr, Pair) and isinstance(rr, Pair):
+        for x, y in ((mr.a, rr.a), (mr.b, rr.b)):
+            d = _compare_arrays(model_result_lists(x), numpy_result_lists(y), compare_hidden)
+            if d is not None:
+                return d
+        return None
     ml = model_result_lists(mr)
     rl = numpy_result_lists(rr)
     if ml is None or rl is None:
@@ -142,6 +148,12 @@ def conform(T, case, values, compare_hidden=None):
                 return None
             return "object result: real violates %s, model violates %s" % (bad, badm)
         return "non-array results: model %r real %r" % (type(mr), type(rr))
+    return _compare_arrays(ml, rl, compare_hidden)
+
+
+def _compare_arrays(ml, rl, compare_hidden):
+    if ml is None or rl is None:
+        return "non-array component"
     md, mm = ml
     rd, rm = rl
     if len(md) != len(rd):
@@ -202,6 +214,8 @@ def _evaluate_contract(case, mk, ctx, outcome):
                 bad.append("raises.%s.whenever" % nm)
         if isinstance(val, Res):
             res = val
+        elif isinstance(val, Pair):
+            res = Res(Pair(res_from_numpy(val.a).value if not isinstance(val.a, (Arr, MArr)) else val.a, res_from_numpy(val.b).value if not isinstance(val.b, (Arr, MArr)) else val.b))
         else:
             try:
                 import numpy as _np
